@@ -4,6 +4,8 @@ package props
 var Registry = map[string]func(tier, replay string) int{
 	"C02": RunC02,
 	"C03": RunC03,
+	"C06": RunC06,
+	"C10": RunC10,
 	"C05": RunC05,
 	"C12": RunC12,
 	"C13": RunC13,
